@@ -50,6 +50,10 @@ CLAIMED = {
           "Proof of the pieces for all inputs; the composition (pandas astype, scikit-learn scaler/RFECV, orchestration) is exercised end to end on every run: 1-7 columns, 1-400 rows, all kinds, nulls, with/without ids, all strategies incl. main column 0 and ML target. Totality of the whole pipeline is not a Lean theorem (partial).",
           "pandas/scikit-learn outside the model. Known finding: RecursionError for float values closer than ~2^-900 of the column range.",
           "DESIGN.md §5 C07"),
+  "C14": ("Lean 4 theorems (matrix symmetric with unit diagonal for every forest, every score in [0,1], weighted mean in [0,1], entropy >= 0 when released shares are <= 1) + bit-exact correspondence of measure_all (entropies and dependency matrix, joint walk incl. singular branches and folded outliers) + bounds and ranking claims evaluated on real forests",
+          "Machine-checked proof of the bounded/symmetric clauses for all inputs over exact arithmetic; measures.py modelled and compared bit for bit (log2 from the same libm); the statistical ranking clauses are NOT proved - they are evaluated on seeded tables and reported as support; gross deviations are reported as failures.",
+          "Ranking clauses statistical (partial; known finding: one-to-one dependence can fall to ~0.56 for 5/8 categories). Entropy sign needs shares <= 1, not guaranteed under noise.",
+          "DESIGN.md §5 C14"),
   "C08": ("Lean 4 theorems: released count of N rows within 17*sd+1/2 of N (two layers, deviate bound proved over the reals), a group of N >= lt+(gap+8.5)sd always passes, noise off => hard floor only, rescaling loses at most one unit, one row per unit, patch keeps the left count + bit-exact correspondence of trees/harvest + len(sample()) checked against the bound on generated tables",
           "Machine-checked proof of each link of the row-count chain; the chain itself (root true count = N, harvest total = root count or one less) is evaluated on every real table (single / none / default clustering, noise on and off, outliers, nulls, 1-400 rows).",
           "Composition into one theorem about sample() not done (partial). Double-precision libm not covered by the real-number bound.",
